@@ -29,6 +29,7 @@ class Gen:
         self.share = share
         self.any_dates = any_dates
         self.made = []          # class instances made so far (for sharing)
+        self.made_str = []      # seasoned string-like objects (for sharing)
 
     def string(self):
         return plain.rand_str(self.rng, self.str_classes)
@@ -112,6 +113,16 @@ class Gen:
                 s = 'a' + s
             elif con == 'nonempty' and not s:
                 s = 'n'
+            elif con == 'upper':
+                s = ''.join(ch for ch in s if ord(ch) < 128).upper()
+                if self.share and self.made_str and rng.random() < self.share:
+                    cands = [o for o in self.made_str
+                             if type(o).__name__ == name]
+                    if cands:
+                        return rng.choice(cands)
+                o = cls(s)
+                self.made_str.append(o)
+                return o
             return cls(s)
         choices = self.concrete_choices(name)
         if not choices:
